@@ -40,6 +40,10 @@ def jobs(tier):
         for fw in ("flask", "fastapi"):
             out.append(dict(name=f"resolve:{fw}:{dn}:[[1,0]]", fn="resolve", params=dict(delim=d, fw=fw, shape=[[1, 0]]), budget_s=600,
                             group=f"resolve:{fw}", expect_outcomes=["302", "422"]))
+            if d == ":":    # a record that carries an identifier pattern (which the statement does not let the answer depend on)
+                out.append(dict(name=f"resolve:{fw}:{dn}:[[1,0]]:pattern", fn="resolve",
+                                params=dict(delim=d, fw=fw, shape=[[1, 0]], patterns=["^\\d{7}$"]), budget_s=600,
+                                group=f"resolve:{fw}", expect_outcomes=["302", "422"]))
             if tier == "thorough":
                 out.append(dict(name=f"resolve:{fw}:{dn}:[[0,0],[1,0]]", fn="resolve", params=dict(delim=d, fw=fw, shape=[[0, 0], [1, 0]]),
                                 budget_s=1800, shard_depth=6, group=f"resolve:{fw}", expect_outcomes=["302", "422"]))
@@ -133,6 +137,8 @@ def build(job):
         fw = params["fw"]
         pref, ident, urisafe = languages(delim)
         recs = mk_recs(eng, params["shape"])
+        for r, pat in zip(recs, params.get("patterns") or []):
+            r.pattern = pat
         assume_strict(eng, recs)
         for r in recs:
             # URI prefixes are absolute URLs over the URL-safe alphabet (a relative Location is rejected by HTTP clients)
